@@ -32,3 +32,44 @@ def bfs(system, events, depth, tally, on_transition=None):
             fix = True
             break
     return {"states": len(seen), "transitions": transitions, "max_depth": maxd, "fixpoint": fix, "samples": samples, "frontier_left": len(frontier)}
+
+
+def bfs_pool(workers, replay_chunk, events, depth, tally):
+    """the same search, level-synchronous over a process pool: replay_chunk(list of histories) -> [(history, key,
+    failures)] runs in pool workers (each builds its own system); de-duplication and the frontier stay in the parent, so
+    states, transitions and the set of histories replayed are exactly those of bfs()."""
+    import multiprocessing as mp
+
+    (h0, key0, _), = replay_chunk([()])
+    seen = {key0: ()}
+    frontier = [()]
+    transitions = 0
+    maxd = 0
+    samples = []
+    fix = False
+    with mp.get_context("fork").Pool(workers) as pool:
+        for d in range(1, depth + 1):
+            todo = [hist + (ev,) for hist in frontier for ev in events]
+            n = max(1, min(len(todo), workers * 3))
+            chunks = [todo[i::n] for i in range(n)]
+            got = {}
+            for rs in pool.map(replay_chunk, [c for c in chunks if c]):
+                for h2, key, fails in rs:
+                    got[tuple(h2)] = (key, fails)
+            new = []
+            for h2 in todo:  # parent-side processing in the sequential order
+                key, fails = got[h2]
+                transitions += 1
+                for sig, case, detail in fails:
+                    tally.fail(sig, case, detail)
+                if len(samples) < 3 and d == min(depth, 2):
+                    samples.append([list(map(str, h2)), str(key)[:300]])
+                if key not in seen:
+                    seen[key] = h2
+                    new.append(h2)
+                    maxd = d
+            frontier = new
+            if not frontier:
+                fix = True
+                break
+    return {"states": len(seen), "transitions": transitions, "max_depth": maxd, "fixpoint": fix, "samples": samples, "frontier_left": len(frontier)}
